@@ -516,8 +516,11 @@ def r4_wrappers(ctx):
     from .c06 import rw_wrappers, wrapper_table_check
     rw_wrappers(ctx, "C01.R4", classes=("FeatureInterval",))
     ctx.r.soften("C01.R4s")
-    wrapper_table_check(ctx, "C01.R4s", only={"sequence_pos_to_feature", "feature_pos_to_sequence",
-                                              "sequence_interval_to_feature", "feature_interval_to_sequence"})
+    try:
+        wrapper_table_check(ctx, "C01.R4s", only={"sequence_pos_to_feature", "feature_pos_to_sequence",
+                                                  "sequence_interval_to_feature", "feature_interval_to_sequence"})
+    except Exception as ex:  # the strengthening part never fails the run
+        ctx.r.note(f"C01.R4s (strengthening not claimed): {type(ex).__name__}: {ex}")
 
 
 RULES = [
